@@ -120,9 +120,12 @@ class ComplexAngularCentralGaussian(_ProbabilisticModel):
                 eigenvalue_floor,
             )
         else:
+            max_eigenval = np.amax(eigenvals, axis=-1, keepdims=True)
             eigenvals = np.maximum(
                 eigenvals,
-                np.amax(eigenvals, axis=-1, keepdims=True) * eigenvalue_floor,
+                # A zero covariance (only zero observations) falls back to
+                # the absolute floor like in the eigenvalue normalization.
+                np.where(max_eigenval > 0, max_eigenval, 1) * eigenvalue_floor,
             )
         assert np.isfinite(eigenvals).all(), eigenvals
 
